@@ -557,7 +557,7 @@ KNOWN_CLASS = {
 
 def known_signature(target, stage, lines, features):
     lang = target.split(":")[0]
-    if "probe:transitive_typedef" in features:
+    if "probe:transitive" in features:
         # typedef of an include that leads into an include the root does not include: the result
         # cannot be named in the root's scope (see F15); every target is affected in its own way
         return {"class": "typedef_through_transitive_include", "target": lang}
@@ -650,7 +650,7 @@ def printable(files):
 def run(ctx, br):
     quick = ctx.tier == "quick"
     rng = ctx.rng
-    n_casing, n_gen, n_tdprog, n_valid, n_mut, n_arb = (540, 140, 60, 12, 70, 40) if quick else (9000, 2500, 900, 110, 900, 500)
+    n_casing, n_gen, n_tdprog, n_valid, n_mut, n_arb = (540, 140, 60, 10, 70, 40) if quick else (9000, 2500, 900, 110, 900, 500)
     cov = {}
     viol = 0
 
@@ -737,10 +737,10 @@ def run(ctx, br):
     try:
         programs = []
         for i in range(n_valid):
-            probes = [PROBES[(i // 4) % len(PROBES)]] if i % 4 == 3 else []
-            p = G.valid_program(rng, exotic=True, size=(1.0 if i % 5 else 2.0), probes=probes)
-            p["probes"] = probes
-            programs.append(p)
+            programs.append(G.valid_program(rng, exotic=True, size=(1.0 if i % 5 else 2.0)))
+        # the generator defects that are known and not repaired: one small program each, every run
+        for pr in PROBES:
+            programs.append(G.valid_program(rng, exotic=False, size=0.3, probes=[pr]))
         vjobs = explore_valid(ctx, programs, work, lab_root)
         feature_hist = {}
         for p in programs:
